@@ -1,7 +1,7 @@
 (* Pinned statements of C09 (generated once by tools/mkpins.py from coq/props/C09.v, then committed). *)
 From DV Require Import Model.Base Model.NameCheck Model.Parser Model.Header Model.Readers Model.Uncompress
   Model.Mutate Spec.NameSpec Spec.PacketSpec Spec.RecordSpec Proofs.Hoare Proofs.HeaderBits Proofs.InsertLemmas
-  Spec.PlainSpec Proofs.WalkValues Proofs.SetTtl Proofs.WalkSkip Proofs.PlainWf Proofs.InsertSpec Proofs.SetTtlInv Proofs.DeleteInv props.C09.
+  Spec.PlainSpec Proofs.WalkValues Proofs.SetTtl Proofs.WalkSkip Proofs.PlainWf Proofs.InsertSpec Proofs.SetTtlInv Proofs.DeleteInv Proofs.SetNameInv props.C09.
 Check (C09_insert_appends : forall sec rr v it s',
   insert_core sec rr (v, it) = (s', Ok tt) ->
   exists p1 ins,
@@ -85,3 +85,17 @@ Check (C09_delete_on_decompressed : forall v it s' qls qt lA lN lR r x,
      (A' = A /\ Nn' = Nn /\ length R' + 1 = length R)) /\
     (forall w0, u16_at (pp_packet v) 2 w0 -> u16_at (pp_packet (fst s')) 2 w0)).
 Print Assumptions C09_delete_on_decompressed.
+Check (C09_set_name_on_decompressed : forall nm v it s' qls qt lA lN lR r x,
+  dinv v -> bytes_ok nm -> reading (pp_packet v) qls qt lA lN lR -> In (r, x) (lA ++ lN ++ lR) -> is_opt r = false ->
+  it_offset it = Some (rv_off r) -> it_name_end it = rv_name_end r ->
+  m_set_raw_name nm (v, it) = (s', Ok tt) ->
+  dinv (fst s') /\
+  exists n ls A Nn R A' Nn' R' X1 r0 X2,
+    let o1 := 12 + length (wire_of_labels qls) + 4 in
+    check_compressed_name nm 0 = Ok n /\ firstn n nm = wire_of_labels ls /\ name_ok ls /\
+    lA = place o1 A /\ lN = place (o1 + length (cat A)) Nn /\ lR = place (o1 + length (cat A) + length (cat Nn)) R /\
+    reading (pp_packet (fst s')) qls qt (place o1 A') (place (o1 + length (cat A')) Nn') (place (o1 + length (cat A') + length (cat Nn')) R') /\
+    A ++ Nn ++ R = X1 ++ (r0, x) :: X2 /\ A' ++ Nn' ++ R' = X1 ++ with_labels (r0, x) ls :: X2 /\ r = rv_at r0 x (o1 + length (cat X1)) /\
+    length A' = length A /\ length Nn' = length Nn /\ length R' = length R /\
+    (forall w0, u16_at (pp_packet v) 2 w0 -> u16_at (pp_packet (fst s')) 2 w0)).
+Print Assumptions C09_set_name_on_decompressed.
